@@ -301,9 +301,116 @@ func checkC20(c *km.Ctx) {
 			r.AnchorLost("R-C20-3", "subscriber channel creation in handleConnection")
 		}
 	}
+	// every registration in the subscriber table is made under a key created for that one connection (a value
+	// made in the registering call: the channel itself), and only that key is removed again: a key taken from
+	// the request (peer address, name) lets two connections replace or unregister one another
+	nReg := 0
+	for _, fn := range c.P.AllFuncs {
+		if fn.Pkg == nil || fn.Pkg.Pkg.Path() != km.ModPath+"/keymasterd/eventnotifier" {
+			continue
+		}
+		top := fn
+		for top.Parent() != nil {
+			top = top.Parent()
+		}
+		var freshAt func(v ssa.Value, fn, top *ssa.Function, depth int) bool
+		freshIn := func(v ssa.Value) bool { return freshAt(v, fn, top, 0) }
+		freshAt = func(v ssa.Value, fn, top *ssa.Function, depth int) bool {
+			v = km.Unwrap(v)
+			for i := 0; i < 3; i++ {
+				switch x := v.(type) {
+				case *ssa.ChangeType:
+					v = km.Unwrap(x.X)
+					continue
+				case *ssa.MakeInterface:
+					v = km.Unwrap(x.X)
+					continue
+				case *ssa.UnOp:
+					// a variable cell (captured by a closure, here or in the enclosing function): its single store
+					cell := km.Unwrap(x.X)
+					if fv, ok := cell.(*ssa.FreeVar); ok {
+						if b := freeVarBinding(fv); b != nil {
+							cell = km.Unwrap(b)
+						}
+					}
+					if a, ok := cell.(*ssa.Alloc); ok {
+						var stored ssa.Value
+						nst := 0
+						for _, ref := range *a.Referrers() {
+							if st, ok := ref.(*ssa.Store); ok && st.Addr == ssa.Value(a) {
+								stored, nst = st.Val, nst+1
+							}
+						}
+						if nst == 1 {
+							v = km.Unwrap(stored)
+							continue
+						}
+					}
+				case *ssa.FreeVar:
+					if b := freeVarBinding(x); b != nil {
+						v = km.Unwrap(b)
+						continue
+					}
+				}
+				break
+			}
+			switch x := v.(type) {
+			case *ssa.MakeChan:
+				return x.Parent() == top || x.Parent() == fn
+			case *ssa.Alloc:
+				return x.Heap && (x.Parent() == top || x.Parent() == fn)
+			case *ssa.Parameter:
+				// a registering helper: every caller hands in a value it created itself
+				if depth >= 2 {
+					return false
+				}
+				idx := -1
+				for i, q := range fn.Params {
+					if q == x {
+						idx = i
+					}
+				}
+				sites := c.G.Callers[fn]
+				if idx < 0 || len(sites) == 0 {
+					return false
+				}
+				for _, cs := range sites {
+					ci, ok := cs.Instr.(ssa.CallInstruction)
+					if !ok {
+						return false
+					}
+					args := km.CallArgs(ci.Common())
+					ctop := cs.Caller
+					for ctop.Parent() != nil {
+						ctop = ctop.Parent()
+					}
+					if idx >= len(args) || !freshAt(args[idx], cs.Caller, ctop, depth+1) {
+						return false
+					}
+				}
+				return true
+			}
+			return false
+		}
+		km.Instrs(fn, func(in ssa.Instruction) {
+			if mu, ok := in.(*ssa.MapUpdate); ok && mentionsField(mu.Map, "transmitChannels") {
+				nReg++
+				r.Add("R-C20-3", km.FuncName(fn), "subscriber registered under a per-connection key", posOf(c, in), "the key is a value created by the registering call (the connection's own channel)", km.ValStr(mu.Key), freshIn(mu.Key))
+			}
+			if cl, ok := in.(*ssa.Call); ok {
+				if b, ok := cl.Common().Value.(*ssa.Builtin); ok && b.Name() == "delete" && mentionsField(cl.Common().Args[0], "transmitChannels") {
+					r.Add("R-C20-3", km.FuncName(fn), "subscriber unregistered by its own key", posOf(c, in), "the key is the value created by the registering call", km.ValStr(cl.Common().Args[1]), freshIn(cl.Common().Args[1]))
+				}
+			}
+		})
+	}
+	if nReg == 0 {
+		r.AnchorLost("R-C20-3", "registration into the subscriber table")
+	}
 
 	// ---------- R-C20-4
 	checkHistory(c, s)
+	checkHistoryFileReplace(c)
 }
 
 func fnReachable(fn *ssa.Function, b *ssa.BasicBlock) bool {
@@ -459,5 +566,50 @@ func publishedIsCanonical(kind string, arg ssa.Value, sign *ssa.Call) bool {
 	default:
 		cl, idx := callRes(arg)
 		return cl == sign && idx == 0
+	}
+}
+
+// checkHistoryFileReplace: the live history file is replaced only by the renaming writer (write a temporary
+// file, rename over the old one on Close): nothing in the recorder moves, removes, truncates or re-creates the
+// file that the renaming writer is about to replace, so a failed save leaves the previous history in place.
+func checkHistoryFileReplace(c *km.Ctx) {
+	r := c.R
+	destructive := map[string]bool{"os.Rename": true, "os.Remove": true, "os.RemoveAll": true, "os.Truncate": true, "os.Create": true, "os.OpenFile": true, "os.WriteFile": true, "io/ioutil.WriteFile": true}
+	n := 0
+	for _, fn := range c.P.AllFuncs {
+		if fn.Pkg == nil || fn.Pkg.Pkg.Path() != km.ModPath+"/eventmon/eventrecorder" {
+			continue
+		}
+		var names []ssa.Value
+		for _, ci := range km.CallsIn(fn) {
+			if strings.HasSuffix(km.CalleeFull(ci.Common()), "fsutil.CreateRenamingWriter") {
+				names = append(names, km.Unwrap(ci.Common().Args[0]))
+				n++
+			}
+		}
+		if len(names) == 0 {
+			continue
+		}
+		bad := ""
+		for _, ci := range km.CallsIn(fn) {
+			cn := km.CalleeFull(ci.Common())
+			if !destructive[cn] {
+				continue
+			}
+			a0 := km.Unwrap(ci.Common().Args[0])
+			for _, nm := range names {
+				if a0 == nm {
+					bad = short(cn) + " of the live file at " + posOf(c, ci)
+				}
+			}
+		}
+		found := "only the renaming writer touches the live file"
+		if bad != "" {
+			found = bad
+		}
+		r.Add("R-C20-4", km.FuncName(fn), "history file replaced atomically", c.P.Pos(fn.Pos()), "the file handed to the renaming writer is not moved, removed, truncated or re-created by anything else in the function", found, bad == "")
+	}
+	if n == 0 {
+		r.AnchorLost("R-C20-4", "renaming writer in the event recorder's save path")
 	}
 }
